@@ -150,6 +150,22 @@ func genPolicy(r *vlib.R, good bool) string {
 		// everything in range and enabled; only the network list is invalid
 		return fmt.Sprintf("t %d %d 0 0 %s", vlib.Pick(r, []int{0, 24, 32}), vlib.Pick(r, []int{0, 56, 64}), genBadNets(r))
 	}
+	if !good && r.Chance(1, 2) {
+		// exactly ONE field out of range, every other value valid: each consumer of
+		// the [ecs] block (edns forwarding side, cache keying side) must refuse it
+		v := []int{vlib.Pick(r, []int{0, 19, 24, 32}), vlib.Pick(r, []int{0, 48, 56, 64}), vlib.Pick(r, []int{0, 16, 20, 24}), vlib.Pick(r, []int{0, 40, 48, 56})}
+		i := r.Intn(4)
+		w := 32
+		if i%2 == 1 {
+			w = 128
+		}
+		v[i] = vlib.Pick(r, []int{w + 1, w + 2, 200, 255})
+		nets := "-"
+		if r.Chance(1, 3) {
+			nets = "4:0a000000/8;6:20010db8000000000000000000000000/32"
+		}
+		return fmt.Sprintf("t %d %d %d %d %s", v[0], v[1], v[2], v[3], nets)
+	}
 	en := good || r.Chance(70, 100)
 	invalidOK := !good
 	m4, m6 := 0, 0
@@ -394,7 +410,91 @@ func genWireFacts(r *vlib.R, spec polSpec) string {
 	return fmt.Sprintf("ecs wire %s %s", vlib.B(adm), o)
 }
 
+// genOptsRaw: what a client can put on the wire, byte for byte — subnet options
+// with exactly the address bytes the netmask needs (host bits set in the last
+// one), with the full address, one byte short, one byte long; family 0; now
+// and then a netmask beyond the family (undecodable packet) — next to options
+// the strict parser knows (cookie, NSID, padding, keepalive) and some it does
+// not (which send the packet down the decoded fallback).
+func genOptsRaw(r *vlib.R, spec polSpec, base []byte) string {
+	var parts []string
+	if r.Chance(1, 2) {
+		parts = append(parts, "O10."+vlib.Hex(r.Bytes(vlib.Pick(r, []int{8, 16, 24, 40, 4}))))
+	}
+	for i := 0; i < r.Intn(3); i++ {
+		parts = append(parts, vlib.Pick(r, []string{"O3.x", "O11.x", fmt.Sprintf("O12.%d", r.Intn(30)), "O65001.aa55", "O15.0007"}))
+	}
+	if r.Chance(9, 10) {
+		fam, w, code := 4, 32, 1
+		if len(base) == 16 {
+			fam, w, code = 6, 128, 2
+		}
+		m := genMask(r, spec, fam)
+		if m > w {
+			m = w
+			if r.Chance(1, 4) {
+				m = w + 1 // the library refuses the packet
+			}
+		}
+		need := (min(m, w) + 7) / 8
+		n := vlib.Pick(r, []int{need, need, w / 8, w / 8, max(0, need-1), w/8 + 1})
+		full := append(hostNoise(r, base), 0xa5)
+		a := "-"
+		if n > 0 {
+			a = vlib.Hex(full[:n])
+		}
+		e := fmt.Sprintf("E%d.%d.%d.%s", code, m, vlib.Pick(r, []int{0, 0, 0, 0, 24}), a)
+		if r.Chance(1, 7) {
+			e = vlib.Pick(r, []string{"E0.0.0.-", "E0.0.0.00000000", "E0.0.24.-"})
+		}
+		at := r.Intn(len(parts) + 1)
+		parts = append(parts[:at], append([]string{e}, parts[at:]...)...)
+	}
+	if len(parts) == 0 {
+		return "-"
+	}
+	return strings.Join(parts, ",")
+}
+
+// genClientOpts picks the option token for a request entering through proto; now
+// and then the request carries a SECOND OPT record in front (RFC 6891 6.1.1
+// forbids it, nothing stops a client): its cookie and unclamped subnet must
+// vanish, not travel upstream.
+func genClientOpts(r *vlib.R, spec polSpec, proto string, ecsPct int, base []byte, nooptOK bool) string {
+	one := func(pct int, b []byte) string {
+		switch proto[0] {
+		case 'w':
+			return genOptsWire(r, spec, b)
+		case 'r':
+			return genOptsRaw(r, spec, b)
+		}
+		return genOpts(r, spec, pct, b, false)
+	}
+	if nooptOK && proto[0] != 'w' && proto[0] != 'r' && r.Chance(1, 12) {
+		return "noopt"
+	}
+	tok := one(ecsPct, base)
+	if ecsPct == 0 && (proto[0] == 'w' || proto[0] == 'r') {
+		tok = vlib.Pick(r, []string{"-", "O3.x", "O10.0011223344556677"})
+	}
+	if proto[0] != 'w' && r.Chance(1, 9) {
+		other := pickV4(r)
+		if len(base) == 16 {
+			other = pickV6(r)
+		}
+		lead := one(100, hostNoise(r, other))
+		if r.Chance(1, 3) {
+			lead = one(100, base)
+		}
+		tok = lead + "+" + tok
+	}
+	return tok
+}
+
 func lastECS(opts string) (optT, bool) {
+	if i := strings.LastIndex(opts, "+"); i >= 0 {
+		opts = opts[i+1:]
+	}
 	os, _ := parseOpts(opts)
 	var out optT
 	ok := false
@@ -603,11 +703,8 @@ func genPipeCase(r *vlib.R, emit func(string)) int {
 	}
 	q := func(qid int) {
 		s := vlib.Pick(r, sites)
-		proto := vlib.Pick(r, []string{"udp", "udp", "tcp", "doh", "wudp", "wudp", "wtcp"})
-		copts := genOpts(r, spec, 90, s.ecs, true)
-		if proto[0] == 'w' {
-			copts = genOptsWire(r, spec, s.ecs)
-		}
+		proto := vlib.Pick(r, []string{"udp", "udp", "tcp", "doh", "wudp", "wudp", "wtcp", "rudp", "rudp", "rtcp"})
+		copts := genClientOpts(r, spec, proto, 90, s.ecs, true)
 		ttl := vlib.Pick(r, []int{300, 301, 600, 3599, 3600, 3601, 86400})
 		// what the authority says: an address, or a denial (NODATA / NXDOMAIN with SOA)
 		// whose negative TTL is the SOA's — scoped all the same when it carries a SCOPE
@@ -663,26 +760,66 @@ func genPipeCase(r *vlib.R, emit func(string)) int {
 		}
 		count += 2
 	}
+	if pf > 0 && r.Chance(2, 3) {
+		// names that exist below d.z<k>, cached shared; after most of their lifetime
+		// ECS / CD / plain clients hit them and the queued background refreshes come
+		// back as validated NXDOMAINs: only a plain client's refresh may publish the
+		// shared cut, and only plain clients may afterwards be answered from it
+		pq := func(qid int, plain bool) {
+			s := vlib.Pick(r, sites)
+			proto := vlib.Pick(r, []string{"udp", "tcp", "wudp", "rudp"})
+			copts, cd := "-", false
+			if !plain {
+				switch r.Intn(3) {
+				case 0:
+					copts = genClientOpts(r, spec, proto, 100, s.ecs, false)
+				case 1:
+					cd = true
+				}
+			}
+			emit(fmt.Sprintf("pipe pq %s %s %d %s %s %d %d", s.client, proto, qid, vlib.B(cd), copts, 1+qid%2, next()))
+			count++
+		}
+		var ps []int
+		for i := 0; i < 2+r.Intn(3); i++ {
+			ps = append(ps, next())
+			pq(ps[i], r.Chance(2, 3)) // also CD=1 / ECS creators: their entries are refreshed by their like
+		}
+		emit("pipe age 9 10")
+		for _, qid := range ps {
+			pq(qid, r.Chance(1, 3))
+		}
+		emit(fmt.Sprintf("pipe refreshnx %d %s", next(), vlib.Pick(r, []string{"m", "m", "f", "t"})))
+		uniq += 16
+		for i := 0; i < 3; i++ {
+			pq(next(), r.Bool())
+		}
+		count += 2
+	}
 	// shared synthesised denials
 	nd := 4 + r.Intn(6)
 	for i := 0; i < nd; i++ {
 		s := vlib.Pick(r, sites)
 		copts := "-"
-		proto := vlib.Pick(r, []string{"udp", "tcp", "wudp", "wudp"})
+		proto := vlib.Pick(r, []string{"udp", "tcp", "wudp", "wudp", "rudp", "doh"})
 		switch r.Intn(5) {
 		case 0, 1:
-			copts = genOpts(r, spec, 100, s.ecs, false)
-			if proto[0] == 'w' {
-				copts = genOptsWire(r, spec, s.ecs)
-			}
+			copts = genClientOpts(r, spec, proto, 100, s.ecs, false)
 		case 2:
-			copts = genOpts(r, spec, 0, nil, true)
+			copts = genClientOpts(r, spec, proto, 0, s.ecs, true)
 		}
 		kind := "nx"
 		if r.Chance(1, 3) {
 			kind = "alias"
 		}
-		emit(fmt.Sprintf("pipe %s %s %s %d %s %s %d", kind, s.client, proto, next(), vlib.B(r.Chance(1, 5)), copts, 1+r.Intn(2)))
+		// the CD bit on the response to the client's own query usually mirrors the
+		// query's; a local-answer middleware / plugin / non-conforming hop may not
+		cd := r.Chance(1, 4)
+		rcd := cd
+		if r.Chance(1, 3) {
+			rcd = !cd
+		}
+		emit(fmt.Sprintf("pipe %s %s %s %d %s %s %d %s", kind, s.client, proto, next(), vlib.B(cd), copts, 1+r.Intn(2), vlib.B(rcd)))
 		count++
 		if r.Chance(1, 3) {
 			emit(fmt.Sprintf("pipe sget %d %s %s %s %s %d", next(), vlib.B(r.Chance(1, 5)), vlib.B(r.Chance(1, 5)), vlib.B(r.Chance(1, 5)), vlib.B(r.Chance(1, 5)), 1+r.Intn(2)))
